@@ -363,6 +363,20 @@ def fq(h):
 
 def run_kani_group(prop_id, scratch, harnesses, features=None, cbmc_args=None, jobs=None, timeout_s=1800, mem_gb=12,
                    extra_flags=None, key=None):
+    """run `cargo kani` for a list of harness names; one retry if the toolchain crashed without results"""
+    res, wall = _run_kani_group(prop_id, scratch, harnesses, features, cbmc_args, jobs, timeout_s, mem_gb, extra_flags, key)
+    crashed = [r["harness"] for r in res if r["status"] == "undecided" and r["reason"].startswith("no result for harness")]
+    if crashed:
+        log("[%s] toolchain crash without result for %s: retrying once" % (prop_id, crashed))
+        res2, wall2 = _run_kani_group(prop_id, scratch, crashed, features, cbmc_args, min(jobs or len(crashed), 2), timeout_s, mem_gb, extra_flags, (key or prop_id) + ".r")
+        by = dict((r["harness"], r) for r in res2)
+        res = [by.get(r["harness"], r) if r["harness"] in crashed else r for r in res]
+        wall += wall2
+    return res, wall
+
+
+def _run_kani_group(prop_id, scratch, harnesses, features=None, cbmc_args=None, jobs=None, timeout_s=1800, mem_gb=12,
+                    extra_flags=None, key=None):
     """run `cargo kani` once for a list of harness names; returns list of per-harness result dicts"""
     env, tdir = kani_env(key or prop_id)
     out_json = os.path.join(scratch, "kani-%s.json" % hashlib.md5(" ".join(harnesses).encode()).hexdigest()[:8])
@@ -386,7 +400,10 @@ def run_kani_group(prop_id, scratch, harnesses, features=None, cbmc_args=None, j
     # memory guard: RLIMIT_AS per process
     def pre():
         import resource
-        lim = mem_gb * 1024 ** 3
+        # address-space cap for the whole process group (it is inherited by kani-compiler / rustc,
+        # which need a large virtual size: below ~8 GB the compiler aborts with "memory allocation
+        # failed"); mem_gb still drives how many harnesses are scheduled at once
+        lim = max(mem_gb, 12) * 1024 ** 3
         resource.setrlimit(resource.RLIMIT_AS, (lim, lim))
         os.setsid()
     logf = os.path.join(scratch, "kani-%s.log" % hashlib.md5(" ".join(harnesses).encode()).hexdigest()[:8])
